@@ -4,6 +4,7 @@ package c13
 import (
 	"context"
 	"fmt"
+	"strings"
 	"sync"
 	"testing"
 	"time"
@@ -104,7 +105,7 @@ func policy(srv *udpnet.Server, c Case) func(rx *simbmc.Rx) []udpnet.Reply {
 		for _, o := range rx.Replies {
 			normal = append(normal, udpnet.Reply{Data: o.Data})
 		}
-		if n < c.K {
+		if n <= c.K { // requests 1..K are answered normally, the fault starts with request K+1
 			srv.ValidSent += len(normal)
 			return normal
 		}
@@ -135,13 +136,20 @@ func policy(srv *udpnet.Server, c Case) func(rx *simbmc.Rx) []udpnet.Reply {
 				return []udpnet.Reply{{Data: srv.BMC.Wrap(s, srv.BMC.ResponseFor(rx.Msg, 0xC0, nil).Bytes()).Data}}
 			}
 			return nil // RMCP+ payloads have no busy code: drop
-		case "truncated":
+		case "truncated", "truncated-tail1", "truncated-half", "truncated-to8":
+			// the reply's payload is cut short and the wrapper's length field fixed
+			// up, so the session wrapper still parses: to 4 bytes, by one byte, to
+			// half, or to the 8 bytes that precede a handshake message's variable part
 			var out []udpnet.Reply
 			for _, r := range normal {
 				d := append([]byte(nil), r.Data...)
 				if len(d) > 20 {
-					d = d[:20]
-					d[14], d[15] = 4, 0
+					pl := len(d) - 16
+					keep := map[string]int{"truncated": 4, "truncated-tail1": pl - 1, "truncated-half": pl / 2, "truncated-to8": 8}[c.Fault]
+					if keep < pl && keep >= 0 {
+						d = d[:16+keep]
+						d[14], d[15] = byte(keep), byte(keep>>8)
+					}
 				}
 				out = append(out, udpnet.Reply{Data: d})
 			}
@@ -213,7 +221,7 @@ func runOnce(c Case, seed uint64) (outcome, error) {
 	}
 	e.srv.Lock()
 	o.valid = e.srv.ValidSent
-	o.reached = e.srv.Received >= c.K
+	o.reached = e.srv.Received > c.K
 	e.srv.Unlock()
 	return o, nil
 }
@@ -259,7 +267,7 @@ func cases() []Case {
 	for _, call := range []string{"sessionless", "newsession", "insession", "close", "sdr", "dcmi"} {
 		faults := []string{"blackhole", "late", "garbage", "busy"}
 		if call == "newsession" {
-			faults = append(faults, "truncated")
+			faults = append(faults, "truncated", "truncated-tail1", "truncated-half", "truncated-to8")
 		}
 		for _, f := range faults {
 			for k := 1; k <= steps[call]; k++ {
@@ -330,7 +338,7 @@ func TestDeadlines(t *testing.T) {
 		// a seed-dependent stride through the enumeration, keeping every (call, fault) pair
 		stride := 5
 		for i, c := range all {
-			if (i+int(ev.Seed))%stride == 0 || c.T > time.Second {
+			if (i+int(ev.Seed))%stride == 0 || c.T > time.Second || (strings.HasPrefix(c.Fault, "truncated-") && c.D >= 2*c.T) {
 				sel = append(sel, c)
 			}
 		}
